@@ -237,7 +237,7 @@ theorem xchg_exchange_rejected_empty : type_of% @Ark.Props.C01Xchg.exchange_reje
 /-- adding a present / removing an absent component / naming one twice is rejected with the world unchanged -/
 theorem xchg_exchange_rejected_misfit : type_of% @Ark.Props.C01Xchg.exchange_rejected_misfit := @Ark.Props.C01Xchg.exchange_rejected_misfit
 
-/-- on the typed paths unfitting relation targets are rejected with the world unchanged -/
+/-- unfitting relation arguments (dead target, non-relation component, component not added) are rejected with the world unchanged, on every path (since the repair of the `Unsafe` API) -/
 theorem xchg_exchange_rejected_badRel : type_of% @Ark.Props.C01Xchg.exchange_rejected_badRel := @Ark.Props.C01Xchg.exchange_rejected_badRel
 
 /-- an accepted call was on a live entity with non-empty, distinct, fitting component lists -/
